@@ -45,6 +45,45 @@ fn orders(n: usize) -> Vec<usize> {
     v
 }
 
+/// what a strategy's `build` may rely on (declared minimum of `Rec`: 2 points)
+fn check_build_axis(name: &str, axis: &[f64], data_len: Option<usize>) {
+    if axis.windows(2).any(|w| !(w[0] < w[1])) {
+        note(format!("the strategy's build was invoked with a {name} axis that is not strictly increasing: {axis:?}"));
+    }
+    if data_len != Some(axis.len()) {
+        note(format!("the strategy's build was invoked with a {name} axis of length {} for a data axis of length {data_len:?}", axis.len()));
+    }
+    if axis.len() < 2 {
+        note(format!("the strategy's build was invoked with {} points on the {name} axis, below its declared minimum 2", axis.len()));
+    }
+}
+
+/// builder cases: inputs that must NOT reach the strategy's build (what build() returns for them
+/// is not C18's business); the verdict is whatever `check_build_axis` noted
+fn probe_build1<Sd, Sx, D>(label: &str, data: ArrayBase<Sd, D>, x: ArrayBase<Sx, Ix1>) -> Option<String>
+where
+    Sd: Data<Elem = f64>,
+    Sx: Data<Elem = f64>,
+    D: Dimension + RemoveAxis,
+{
+    NOTES.with(|n| n.borrow_mut().clear());
+    let _ = catch_unwind(AssertUnwindSafe(|| Interp1DBuilder::new(data).x(x).strategy(Rec).build().map(|_| ())));
+    NOTES.with(|n| n.borrow().first().cloned()).map(|n| format!("{label}: {n}"))
+}
+
+fn probe_build2<Sd, Sx, Sy, D>(label: &str, data: ArrayBase<Sd, D>, x: ArrayBase<Sx, Ix1>, y: ArrayBase<Sy, Ix1>) -> Option<String>
+where
+    Sd: Data<Elem = f64>,
+    Sx: Data<Elem = f64>,
+    Sy: Data<Elem = f64>,
+    D: Dimension + RemoveAxis,
+    D::Smaller: RemoveAxis,
+{
+    NOTES.with(|n| n.borrow_mut().clear());
+    let _ = catch_unwind(AssertUnwindSafe(|| Interp2DBuilder::new(data).x(x).y(y).strategy(Rec).build().map(|_| ())));
+    NOTES.with(|n| n.borrow().first().cloned()).map(|n| format!("{label}: {n}"))
+}
+
 pub struct Rec;
 pub struct Rec1<D: Dimension> {
     xs: Vec<f64>,
@@ -68,7 +107,9 @@ where
     where
         Sx2: Data<Elem = f64>,
     {
-        Ok(Rec1 { xs: x.iter().copied().collect(), data: data.to_owned() })
+        let xs: Vec<f64> = x.iter().copied().collect();
+        check_build_axis("x", &xs, data.shape().first().copied());
+        Ok(Rec1 { xs, data: data.to_owned() })
     }
 }
 
@@ -117,7 +158,11 @@ where
     const MINIMUM_DATA_LENGHT: usize = 2;
     type FinishedStrat = Rec2<D>;
     fn build(self, x: &ArrayBase<Sx, Ix1>, y: &ArrayBase<Sy, Ix1>, data: &ArrayBase<Sd, D>) -> Result<Rec2<D>, BuilderError> {
-        Ok(Rec2 { xs: x.iter().copied().collect(), ys: y.iter().copied().collect(), data: data.to_owned() })
+        let xs: Vec<f64> = x.iter().copied().collect();
+        let ys: Vec<f64> = y.iter().copied().collect();
+        check_build_axis("x", &xs, data.shape().first().copied());
+        check_build_axis("y", &ys, data.shape().get(1).copied());
+        Ok(Rec2 { xs, ys, data: data.to_owned() })
     }
 }
 
@@ -264,6 +309,15 @@ pub fn callbacks() -> u64 {
     CALLS.with(|c| c.get())
 }
 
+/// violation kind of a verdict of the table
+pub fn kind_of(detail: &str) -> &'static str {
+    if detail.contains("strategy's build was invoked") {
+        "build-invoked-on-invalid-input"
+    } else {
+        "callback-invariant"
+    }
+}
+
 /// returns (number of cases, first violation)
 pub fn degenerate_stride_cases() -> (u64, Option<String>) {
     use ndarray::{Array2, Array3, Array4};
@@ -321,6 +375,46 @@ pub fn degenerate_stride_cases() -> (u64, Option<String>) {
     {
         let t = Array3::from_shape_fn((3, 2, 1), |(i, j, _)| (i * 2 + j) as f64);
         case!(drive2("2-D, view: trailing axis broadcast to (3,2,4)", t.broadcast((3, 2, 4)).unwrap(), ax(3).view(), ax(2).view()));
+    }
+    // --- 2-D: axes that alias each other, minimum length on one axis, doubly reversed axes --------
+    {
+        let one = ax(7);
+        let grid = |a: usize, b: usize| Array2::from_shape_fn((a, b), |(i, j)| (i * 17 + j * 3) as f64 * 0.25 - 2.0);
+        case!(drive2("2-D, x and y are the same view (5 x 5)", grid(5, 5), one.slice(ndarray::s![..5]), one.slice(ndarray::s![..5])));
+        case!(drive2("2-D, x and y are overlapping views of one array (4 x 6)", grid(4, 6), one.slice(ndarray::s![..4]), one.slice(ndarray::s![1..])));
+        case!(drive2("2-D, x and y are disjoint views of one array (3 x 4)", grid(3, 4), one.slice(ndarray::s![..3]), one.slice(ndarray::s![3..])));
+        case!(drive2("2-D, x and y are interleaved views of one array (4 x 3)", grid(4, 3), one.slice(ndarray::s![..;2]), one.slice(ndarray::s![1..;2])));
+        case!(drive2("2-D, shared axes with one owner (3 x 3)", grid(3, 3).into_shared(), ax(3).into_shared(), ax(3).into_shared()));
+        case!(drive2("2-D, 2 x 7 (declared minimum on x)", grid(2, 7), ax(2), ax(7)));
+        case!(drive2("2-D, 7 x 2 (declared minimum on y)", grid(7, 2), ax(7), ax(2)));
+        let rev = Array1::from_iter((0..5).rev().map(|i| 1.5 * i as f64 - 1.0));
+        case!(drive2("2-D, axes that are reversed views of descending arrays (5 x 5)", grid(5, 5), rev.slice(ndarray::s![..;-1]), rev.slice(ndarray::s![..;-1])));
+        let t = grid(6, 4);
+        case!(drive2("2-D, transposed data view (4 x 6)", t.t(), ax(4).view(), ax(6).view()));
+    }
+    // --- builder: invalid axes that ALIAS a valid one (same first element, same length, other
+    // stride), alias the data, or are broadcast; none of them may reach the strategy's build ------
+    {
+        let base = ax(5);
+        let grid = |a: usize, b: usize| Array2::from_shape_fn((a, b), |(i, j)| (i * 7 + j) as f64);
+        let flat = base.slice(ndarray::s![0..1]);
+        case!(probe_build2("builder 2-D: y = first element of x broadcast (stride 0, same start, same length)", grid(5, 5), base.view(), flat.broadcast(5).unwrap()));
+        case!(probe_build2("builder 2-D: x = first element of y broadcast", grid(5, 5), flat.broadcast(5).unwrap(), base.view()));
+        case!(probe_build2("builder 2-D: y = reversed view starting at x's first element", grid(3, 3), base.slice(ndarray::s![2..5]), base.slice(ndarray::s![0..3;-1])));
+        case!(probe_build2("builder 2-D: x = reversed view starting at y's first element", grid(3, 3), base.slice(ndarray::s![0..3;-1]), base.slice(ndarray::s![2..5])));
+        case!(probe_build2("builder 2-D: owned y with a tie next to a view x", grid(3, 3), base.slice(ndarray::s![0..3]), Array1::from_vec(vec![-1.0, 2.0, 2.0])));
+        case!(probe_build2("builder 2-D: y is the same view as x but the data is 5 x 4", grid(5, 4), base.view(), base.view()));
+        case!(probe_build2("builder 2-D: x and y identical views, both with a tie", grid(3, 3), flat.broadcast(3).unwrap(), flat.broadcast(3).unwrap()));
+        case!(probe_build2("builder 2-D: y reversed (descending) view of x", grid(5, 5), base.view(), base.slice(ndarray::s![..;-1])));
+        // 1-D: the axis aliases the data
+        let d1 = Array1::from_vec(vec![0.0, 1.0, 2.0, 3.0]);
+        case!(probe_build1("builder 1-D: x = first element of the data broadcast", d1.view(), d1.slice(ndarray::s![0..1]).broadcast(4).unwrap()));
+        case!(probe_build1("builder 1-D: x = the data reversed", d1.view(), d1.slice(ndarray::s![..;-1])));
+        case!(probe_build1("builder 1-D: x = the data itself (valid)", d1.view(), d1.view()));
+        case!(probe_build1("builder 1-D: x = a window of the data (too short)", d1.view(), d1.slice(ndarray::s![..3])));
+        let col = Array2::from_shape_fn((4, 3), |(i, j)| (i as f64) * if j == 1 { -1.0 } else { 1.0 });
+        case!(probe_build1("builder 1-D: x = a descending column of the data", col.view(), col.column(1)));
+        case!(probe_build1("builder 1-D: x = an ascending column of the data (valid)", col.view(), col.column(0)));
     }
     (n, None)
 }
